@@ -57,7 +57,53 @@ def lim_steps(t):
         yield st, {"fdConsuming": fd, "waitingOnFd": nwfd, "activePerPeer": act, "waitingOnPeer": wp, "inflight": dl}
 
 
+def w_steps(t):
+    """yield (stimulus tuple, observation dict) for a worker case"""
+    i, n = 1, len(t)
+    while i < n:
+        k = t[i]
+        if k == 1:
+            rid, sim, fdir, ok, cnt = t[i + 1:i + 6]; i += 6
+            rk = [(t[i + 2 * a], t[i + 2 * a + 1]) for a in range(cnt)]; i += 2 * cnt
+            st = ("request", rid, "sim" if sim else "-", "forcedirect" if fdir else "-", rk if ok else "addrsForDial-error")
+        elif k == 2:
+            st = ("advance_ns", t[i + 1]); i += 2
+        elif k == 3:
+            st = ("dial-update", t[i + 1], {0: "fail", 1: "conn", 2: "canceled", 3: "handshake-progress", 4: "conn-refused-by-addConn"}.get(t[i + 2], t[i + 2]), t[i + 3]); i += 4
+        elif k == 4:
+            st = ("backoff", t[i + 1]); i += 2
+        elif k == 5:
+            st = ("close",); i += 1
+        elif k == 6:
+            st = ("inbound-conn", "direct" if t[i + 1] else "relayed"); i += 2
+        else:
+            return
+        nr = t[i]; i += 1
+        rs = [(t[i + 2 * a], "conn" if t[i + 2 * a + 1] == 0 else "err") for a in range(nr)]; i += 2 * nr
+        nd = t[i]; i += 1
+        ds = t[i:i + nd]; i += nd
+        conn = t[i]; nt = t[i + 1]; i += 2
+        ts = [tuple(t[i + 3 * a:i + 3 * a + 3]) for a in range(nt)]; i += 3 * nt
+        np_ = t[i]; i += 1
+        ps = [(t[i + 2 * a], t[i + 2 * a + 1]) for a in range(np_)]; i += 2 * np_
+        q = t[i]; i += 1
+        yield st, {"responses": rs, "dials": ds, "connected": conn, "tracked": ts, "pending": ps, "quiet": q}
+
+
 def describe(t):
+    try:
+        if t and t[0] == 2:
+            steps = []
+            for st, ob in w_steps(t):
+                steps.append("%s -> responses=%s dials=%s pending=%s tracked(addr,dialed,st)=%s quiet=%d" % (
+                    st, ob["responses"], ob["dials"], ob["pending"], ob["tracked"], ob["quiet"]))
+            return {"kind": "worker", "steps": steps[:80]}
+    except Exception as e:
+        return {"raw": t[:120], "decode_error": str(e)}
+    return describe_lim(t)
+
+
+def describe_lim(t):
     try:
         if t and t[0] == 1:
             steps = []
@@ -79,7 +125,33 @@ def nontrivial(line):
             return any(ob["waitingOnFd"] > 0 or ob["waitingOnPeer"] for _, ob in lim_steps(t))
     except Exception:
         return False
+    try:
+        if t[0] == 2:
+            # worker: a request had to wait (was pending) and some dial was started
+            return any(ob["pending"] for _, ob in w_steps(t)) and any(ob["dials"] for _, ob in w_steps(t))
+    except Exception:
+        return False
     return False
+
+
+def canon_w(t, upto):
+    out = []
+    for idx, (st, _) in enumerate(w_steps(t)):
+        if idx > upto:
+            break
+        if st[0] == "request":
+            out.append("q%d.%s.%s.%s" % (st[1], st[2], st[3], "".join("a%d:%d" % x for x in st[4]) if isinstance(st[4], list) else "E"))
+        elif st[0] == "advance_ns":
+            out.append("t%d" % st[1])
+        elif st[0] == "dial-update":
+            out.append("u%d.%s" % (st[1], st[2]))
+        elif st[0] == "backoff":
+            out.append("b%d" % st[1])
+        elif st[0] == "close":
+            out.append("x")
+        else:
+            out.append("i.%s" % st[1])
+    return " ".join(out)
 
 
 def canon_lim(t, upto):
@@ -106,6 +178,8 @@ def canon_lim(t, upto):
     return " ".join(out)
 
 
+WCLAUSE = {1: "request-answered-twice", 2: "address-handed-to-transport-twice", 3: "response-not-justified",
+           4: "request-unanswered-at-quiescence", 5: "eligible-address-not-attempted"}
 CLAUSE = {1: "caps", 2: "residue", 3: "live-job-not-attempted", 4: "dial-invoked-more-than-once"}
 
 
@@ -115,13 +189,16 @@ def key(tag, toks, d):
     clause = CLAUSE.get(d[2], str(d[2])) if len(d) > 2 else "?"
     if toks and toks[0] == 1:
         return "C05:limiter:%s:fd=%d:pp=%d:%s" % (clause, toks[1], toks[2], canon_lim(toks, step))
+    if toks and toks[0] == 2:
+        return "C05:worker:%s:%s" % (WCLAUSE.get(d[2], str(d[2])) if len(d) > 2 else "?", canon_w(toks, step))
     return "C05:%s:%s" % (toks[:1], d)
 
 
 def what(tag, toks, d):
     step = d[1] if len(d) > 1 else "?"
-    clause = CLAUSE.get(d[2], str(d[2])) if len(d) > 2 else "?"
-    comp = {1: "dial limiter"}.get(toks[0] if toks else 0, "?")
+    kind = toks[0] if toks else 0
+    clause = (WCLAUSE if kind == 2 else CLAUSE).get(d[2], str(d[2])) if len(d) > 2 else "?"
+    comp = {1: "dial limiter", 2: "dial worker"}.get(kind, "?")
     return "%s trace violates clause '%s' at step %s (diag %s)" % (comp, clause, step, d)
 
 
